@@ -266,7 +266,7 @@ def c17_6(ctx):
     sh = [s for s in ast.walk(f.node) if isinstance(s, ast.Assign) and N(s.targets[0]) == 'df[_updated]']
     vals = [N(s.value) for s in sh]
     want = [NS('list(df.index[1:]) + [now]'), NS('dt_bump(df, asof).index'), NS('dt_bump(df, *asof).index'), 'dt(asof)']
-    if vals != want:
+    if sorted(vals) != sorted(want):
         ctx.fail(f, f.node, 'stamps are assigned as %s' % vals)
     caps = [N(s.targets[0]) for s in ast.walk(f.node) if isinstance(s, ast.Assign) and '.loc' in U(s.targets[0])]
     if any(c != NS('df.loc[df[_updated] > now, _updated]') for c in caps):
